@@ -119,7 +119,8 @@ def engDispatch (st : EngSession) (verb head payload : String) : EngSession × S
     | some e, some t =>
       (match verb with
        | "eng.pub" | "eng.sub" | "eng.unsub" | "eng.disc" =>
-         (match parsePacket payload, kv.num "timeout" with
+         -- `timeout=max` (the largest duration the builders accept) never expires: it is no timeout
+         (match parsePacket payload, (if kv.get "timeout" == some "max" then some none else kv.num "timeout") with
           | some p, some timeout =>
             (match validateOutbound p with
              | .error x => (st, s!"res=rejected:{x.name} bytes=x comps=")
